@@ -440,6 +440,10 @@ def explore(harness, params=None, pins=None, tolerate=(), budget_s=600.0,
             st["paths"] += 1
             st["decisions"] += len(space.choices_made)
             bubble = VerificationStatus.CONFIRMED
+            if outcome in ("ok", "known") and space.solver.check() == z3.unsat:
+                # the path condition became contradictory on the way (forced branches): not a real path
+                outcome = "ignored"
+                st["infeasible_ok"] = st.get("infeasible_ok", 0) + 1
             if outcome == "ok":
                 st["ok"] += 1
             elif outcome == "ignored":
